@@ -246,3 +246,43 @@ for _p in ("C01", "C03", "C04", "C20"):
         "journal: abstract backend contract (append_logs appends in order, read_logs(k) returns records k..); single "
         "client between two syncs for the method-level (C01) contracts; JSON round trip value-preserving"]
     PROPS[_p]["witnesses"] = dict(PROPS[_p].get("witnesses", {}), **PROPS["C06"]["witnesses"])
+
+_FILE_ASSUME = LIB_ASSUMPTIONS + [
+    "ghost file model (contracts/journal_file.py): a file is a sequence of lines; line iteration yields maximal "
+    "newline-terminated chunks from the seek position; only the last line may lack the newline; stat().st_size <= "
+    "the length seen by the read loop (append-only growth); json.loads(line) succeeds exactly on complete valid records",
+    "writers only write complete valid records (WF: a complete line is valid JSON; a torn tail has no newline)",
+    "callers read from the number of records they have consumed (log_number_from <= number of valid records)",
+]
+PROPS["C07"] = dict(
+    modules=["contracts.journal_file"],
+    claim="JournalFileBackend.read_logs, for every file satisfying WF, every cache state satisfying the cache invariant and "
+          "every stat size: raises nothing, returns exactly the complete records k..m that lie inside the stat'ed size in "
+          "append order (never a partly written record), and re-establishes the cache invariant (every cached record "
+          "number maps to the byte offset of that record and is preceded by valid records only). One loop with "
+          "break/continue/raise/del, proved with a loop invariant for all iterations.",
+    note="sequential contract over a ghost file model; preemption at arbitrary lines, chunked delivery of one write and "
+         "the stale-lock takeover are schedule/timing questions outside contracts",
+    assumptions=_FILE_ASSUME,
+    not_covered=["arbitrary preemption between source lines", "OS-level chunked delivery of a single write",
+                 "grace-period takeover of a stale lock (release() without owning the lock, by design)"],
+)
+
+PROPS["C07"]["bounded"] = ["bounded.truncate_lattice"]
+PROPS["C05"] = dict(
+    modules=["contracts.journal_file", "contracts.journal"], bounded=["bounded.truncate_lattice"],
+    relevant=lambda pid, c, ob: (c.file.endswith("_file.py") or c.qualname.startswith("JournalStorage.")) and ob["kind"] != "guarded-by",
+    claim="Crash points are a universally quantified torn tail: WF admits a final record cut at any byte (no newline). "
+          "(L5.1 survival) read_logs on such a file raises nothing, returns every acknowledged record and never the torn one, "
+          "and keeps every reader's cache valid -- an instance of the read_logs contract. (L5.2 continuation) append_logs on "
+          "such a file yields a WF file whose new records are complete and valid and in which no earlier record changed "
+          "(torn tail removed under the lock). (L5.3 write-through) every JournalStorage method returns only after "
+          "append_logs returned and the record was replayed (method contracts against the abstract backend).",
+    note="journal file backend only; SQLite/RDB transactions, the stale-lock takeover and fsync durability semantics are not "
+         "covered; _truncate_incomplete_log's byte scan is assumed and bounded-checked",
+    assumptions=_FILE_ASSUME + ["an interrupted write leaves file ++ p for some prefix p of the bytes being written",
+                                "_truncate_incomplete_log removes exactly a torn tail (assumed; bounded stand-in)"] + _J_ASSUME,
+    not_covered=["SQLite/RDB transactions (storage.py:70-99)", "grace-period takeover of a stale lock (timing)",
+                 "durability semantics of flush/fsync", "_CachedStorage persistence ordering (pass-through, C08 pending)"],
+    witnesses={"JournalFileBackend.append_logs:post/ok/0": "witnesses.f5"},
+)
